@@ -204,3 +204,44 @@ pub fn decaps_mutant(data: &[u8]) {
         panic!("C07 violation [{}]: {}", f.signature, f.message);
     }
 }
+
+// ------------------------------------------------------------------ coverage-guided histories
+
+use crate::props::hist::{check_case, decode_case, HistCheck};
+
+/// The property whose history profile the `history` target runs (environment VCHECK_FOCUS).
+fn focus() -> &'static str {
+    static F: OnceLock<String> = OnceLock::new();
+    F.get_or_init(|| std::env::var("VCHECK_FOCUS").unwrap_or_else(|_| "C09".into()))
+}
+
+thread_local! {
+    static HIST: HistCheck<'static> = crate::props::hist_check(focus(), false).unwrap_or_else(|| panic!("VCHECK_FOCUS={} is not a history check", focus()));
+}
+
+/// The fuzzer's bytes are decoded into a history (structure, tracing level, operation sequence)
+/// of the focus property's profile, so libFuzzer mutates and splices *histories* under coverage
+/// feedback from the crate. The oracle is the history check of the focus property (reference
+/// model, wire codec, snapshots), not "does not crash".
+pub fn history(data: &[u8]) {
+    if data.len() < 8 {
+        return;
+    }
+    HIST.with(|hc| {
+        let case = decode_case(data, &hc.profile);
+        if let Err(f) = check_case(hc, &case, col()) {
+            panic!("{} violation [{}]: {}\nCASE {}", focus(), f.signature, f.message, serde_json::to_string(&case).unwrap_or_default());
+        }
+    })
+}
+
+/// Seed corpus for `history`: pseudo-random byte strings (every byte string is a history).
+pub fn history_seeds(id: &str, n: usize) -> Vec<Vec<u8>> {
+    let mut bits = crate::gen::Bits::new(id.bytes().fold(7u64, |a, b| a.wrapping_mul(131).wrapping_add(b as u64)));
+    (0..n)
+        .map(|i| {
+            let len = 24 + (i * 7) % 400;
+            (0..len).map(|_| bits.next() as u8).collect()
+        })
+        .collect()
+}
